@@ -277,6 +277,8 @@ async fn interp(case: &HcCase) -> Verdict {
     let horizon = case.initial_delay + case.interval * (rounds as u64 + 1) + 5;
     let mut burst_idx = 0usize;
     let mut rr_bursts = 0usize;
+    let mut rr_run_set: Vec<usize> = vec![];
+    let mut rr_run_counts: Vec<usize> = vec![0; n];
     for _t in 0..=horizon {
         // let spawned tasks and timers run at this instant
         for _ in 0..4 {
@@ -451,6 +453,26 @@ async fn interp(case: &HcCase) -> Verdict {
                     ));
                 }
                 if case.strategy == 1 && !eligible.is_empty() {
+                    // evenness over time: as long as the eligible set stays the same from burst to
+                    // burst, the rotation simply goes on, so the counts of the whole run stay
+                    // within one of each other (status changes of other resources do not matter)
+                    if rr_run_set == eligible {
+                        for r in 0..n {
+                            rr_run_counts[r] += counts[r];
+                        }
+                    } else {
+                        rr_run_set = eligible.clone();
+                        rr_run_counts = counts.clone();
+                    }
+                    let lo_run = eligible.iter().map(|&r| rr_run_counts[r]).min().unwrap_or(0);
+                    let hi_run = eligible.iter().map(|&r| rr_run_counts[r]).max().unwrap_or(0);
+                    if hi_run > lo_run + 1 {
+                        violations.push(format!(
+                            "t={}: round robin over the unchanged eligible set {eligible:?}: over the last bursts the resources were visited {:?} times (not evenly)",
+                            sim::now(),
+                            eligible.iter().map(|&r| rr_run_counts[r]).collect::<Vec<_>>()
+                        ));
+                    }
                     rr_bursts += 1;
                     let lo = m as usize / eligible.len();
                     let hi = (m as usize + eligible.len() - 1) / eligible.len();
